@@ -180,6 +180,35 @@ def check_pairs(limit=None):
     return out
 
 
+def check_hops(tier):
+    """every port number (direct 1..14, extended 15 and above) x link kind (number, address) as a hop of the request / of the configuration"""
+    out = []
+    n = 0
+    ports = list(range(1, 18)) + [255, 256, 4000, 65535]
+    if tier == 'quick':
+        ports = list(range(1, 17)) + [255, 4000]
+    for port in ports:
+        for link, other in ((3, 4), ('10.0.0.1', '10.0.0.2'), ('a-plc.example.com', 'b-plc.example.com')):
+            hop = ('port', port, link)
+            cases = [('simple', [hop], False), (seg([(port, link)]), [hop], True), (seg([(port, link)]), [('port', port, other)], False),
+                     (seg([(port, link)]), [hop, ('port', 1, 0)], False), (seg([(port, link)]), None, True)]
+            if (port, link) != (1, 2):
+                cases += [(seg([(1, 2)]), [hop], False), (seg([(1, 2)]), [('port', 1, 2), hop], False), (seg([(1, 2), (port, link)]), [('port', 1, 2), hop], True),
+                          (seg([(1, 2), (port, link)]), [('port', 1, 2)], False)]
+            for cfg, rq, accept in cases:
+                n += 1
+                try:
+                    st, vals = e2e(cfg, rq)
+                    ok = (st == 0 and vals == [42, 6, 7]) if accept else (st != 0 and vals == [5, 6, 7])
+                    obs = 'enip status 0x%x tag %r' % (st, vals)
+                except Exception as e:
+                    ok, obs = False, 'raised %s: %s' % (type(e).__name__, e)
+                if not ok and len(out) < 6:
+                    out.append(dict(key='config %r request route %r' % (cfg, rq), observed=obs,
+                                    required='accepted and the write applied' if accept else 'refused with a non-zero status and no tag access'))
+    return n, out
+
+
 def bundled_foreign_route(order):
     """writes T[k] = k+1 through the real client with multiple=500; operation k carries route path 1/1 (order[k] == 0) or 1/5 (1);
     the simulator accepts only 1/1.  Returns the tag afterwards."""
@@ -385,6 +414,10 @@ def bounded(tier, seed):
         if not ok and len(violations) < 8:
             violations.append(dict(key='client write with route path %r to a simulator configured %r' % (route, cfg), observed=obs,
                                    required='applied' if applied else 'refused, the tag untouched'))
+    nh, badh = check_hops(tier)
+    ev += nh
+    distinct |= set(('hop', i) for i in range(nh))
+    violations.extend(badh[:5])
     bad = check_pairs()
     ev += 48
     for b in bad[:5]:
@@ -393,5 +426,5 @@ def bounded(tier, seed):
     return dict(evaluations=ev, distinct_nontrivial=len(distinct), distinct_keys=distinct_keys(distinct),
                 rule='route-path texts (p/l for ports {1,2,15,255} x numeric/IP links, chained 2..3 hops, JSON lists of dicts and of p/l strings) vs a reference '
                      'parser; every (personality in none/simple/3 configured paths) x (request route path absent / equal / differing in port, link, link kind, length) '
-                     'through the real logix.process with a Write Tag: accepted => applied, refused => non-zero status and the tag untouched; bundled client writes with mixed route paths to a 1/1 simulator: none spelled 1/5 is applied; distinct = distinct texts / pairs',
+                     'through the real logix.process with a Write Tag: accepted => applied, refused => non-zero status and the tag untouched; the same for every port number 1..16, 255, 4000 (quick) x link kind (number, IP address, host name) as the only / the second hop of the request or configuration; bundled client writes with mixed route paths to a 1/1 simulator: none spelled 1/5 is applied; distinct = distinct texts / pairs',
                 exhaustive=False, samples=samples, violations=violations[:20], seed=seed)
